@@ -1,4 +1,6 @@
 import FitProps.ActivityLemmas
+import FitProps.ActivityLeakLemmas
+import FitProps.ActivityAccLemmas
 import FitModel.Aggregator
 /-!
 # C20 — fitactivity: conceal hides the stretch; remove/reduce/combine conserve the rest
@@ -77,18 +79,34 @@ theorem C20_conceal_only_positions (first last : Nat) (ms : List Message) :
   exact ⟨t, t.eq_of_other⟩
 
 /-- **No lap or session position points into a concealed stretch** — the full statement: for every activity with
-valid non-decreasing distances whose laps (sessions) are well-formed and follow each other in time, after concealing
-no lap (session) keeps a start/end position that belongs to an instant outside the revealed window, unless it was
-replaced by the coordinates of the first / last revealed record (`noLeakB`, FitModel/ActivitySpec.lean).
+valid non-decreasing distances, recorded forward in time (`recTimesIncB`: the records' timestamps increase), whose
+laps (sessions) carry valid times and follow each other (`lapsSeqB`) and whose records, laps and sessions carry each
+position field at most once (`recUniqueB`, `lapUniqueB`: `RemoveFieldByNum` removes the first field with a number
+only), after concealing no lap (session) keeps a start/end position that belongs to an instant outside the revealed
+window, unless it was replaced by the coordinates of the first / last revealed record and that record is itself
+revealed (`noLeakB`, FitModel/ActivitySpec.lean).
 FALSE on the pinned tree: see the witness below (KF-C20-1 = design finding F17; a second defect, KF-C20-2, was
-repaired in /repo by commit bd79ab7). What is proved: the two stages separately, in seconds (`C20_conceal_lap_session_start_partial`
-under the hypothesis that excludes F17, `C20_conceal_lap_session_end`, `…_none_revealed`); what is missing for the full
-statement outside the F17 class: their composition into `noLeakB` (the anchor coordinates are those of the revealed record,
-the overlap cases). The predicate itself is evaluated on the implementation on every run. -/
+repaired in /repo by commit bd79ab7). Proved outside the class of KF-C20-1: `C20_conceal_lap_session_partial`.
+(The two well-formedness conditions were made explicit by the proof: with a duplicated position field in a lap, or
+with record timestamps that do not increase, "before the first revealed record" by file order and by time are
+different things and the statement — which reads "points into" by time — does not apply; the generated activities
+and the property's quantifier, synthetic activities, always satisfy them.) -/
 def C20_conceal_lap_session_full : Prop :=
-  ∀ (ph : PH) (first last : Nat) (ms : List Message), (ph = lapPH ∨ ph = sesPH) → DistOK ms → lapsSeqB ph ms = true →
-    (∀ m ∈ ms, isRecord m = true → UniqueNum fnRecordPositionLat m ∧ UniqueNum fnRecordPositionLong m) →
+  ∀ (ph : PH) (first last : Nat) (ms : List Message), (ph = lapPH ∨ ph = sesPH) → DistOK ms → recTimesIncB ms = true →
+    lapsSeqB ph ms = true → recUniqueB ms = true → lapUniqueB ph ms = true →
     noLeakB ph first last ms (conceal first last ms) = true
+
+/-- **No lap or session position points into a concealed stretch, outside the class of KF-C20-1** (`_partial`: the
+only added hypothesis, `unitsDisagree ph first ms = false`, is the negation of the class predicate of the open
+finding — the predicate `--kf` evaluates: on no lap/session does the code's test `start_time + total_timer_time < T`,
+seconds plus raw milliseconds, differ from the test in seconds). For any conceal distances (overlapping stretches,
+nothing left revealed, nothing concealed), any number of laps / sessions and records, any other messages in between:
+the forward and backward scans, the two lap/session passes of each stage and their composition. -/
+theorem C20_conceal_lap_session_partial (ph : PH) (first last : Nat) (ms : List Message) (hph : ph = lapPH ∨ ph = sesPH)
+    (hd : DistOK ms) (ht : recTimesIncB ms = true) (hseq : lapsSeqB ph ms = true) (hur : recUniqueB ms = true)
+    (hul : lapUniqueB ph ms = true) (hkf : unitsDisagree ph first ms = false) :
+    noLeakB ph first last ms (conceal first last ms) = true :=
+  conceal_noLeak hph first last ms hd ht hseq hur hul hkf
 
 /-- the design witness of F17: 10 records 100 m and 10 s apart, lap 1 = the first 3 records, lap 2 = the other 7,
 total_timer_time in milliseconds as real files carry it -/
@@ -109,9 +127,31 @@ def f17Witness : List Message :=
 /-- KF-C20-1 (F17): concealing the first 500 m leaves lap 1 (entirely inside the stretch) with its end position and
 lap 2 with the start position of record 4 — the hypotheses of the full statement hold, its conclusion does not -/
 theorem C20_conceal_lap_session_F17_witness :
-    distOKB f17Witness = true ∧ lapsSeqB lapPH f17Witness = true ∧
+    distOKB f17Witness = true ∧ recTimesIncB f17Witness = true ∧ lapsSeqB lapPH f17Witness = true ∧
+    recUniqueB f17Witness = true ∧ lapUniqueB lapPH f17Witness = true ∧
     noLeakB lapPH 50000 0 f17Witness (conceal 50000 0 f17Witness) = false ∧
     unitsDisagree lapPH 50000 f17Witness = true := by decide +kernel
+
+/-- non-vacuity of `C20_conceal_lap_session_partial`: the same activity with the first 200 m and the last 300 m
+concealed meets every hypothesis (lap 1 reaches the first revealed record, so the two tests agree), and positions
+are rewritten: lap 1 starts at record 3's position, lap 2 ends at record 7's -/
+example : distOKB f17Witness = true ∧ recTimesIncB f17Witness = true ∧ lapsSeqB lapPH f17Witness = true ∧
+    recUniqueB f17Witness = true ∧ lapUniqueB lapPH f17Witness = true ∧ unitsDisagree lapPH 20000 f17Witness = false ∧
+    conceal 20000 30000 f17Witness ≠ f17Witness := by decide +kernel
+
+/-- why `recTimesIncB` is a hypothesis: two records with DEcreasing timestamps (distances increasing), first 500 m and
+last 600 m concealed — the first revealed record of the start stage (record 2) is concealed by the end stage, and lap
+1, rewritten by the start stage with its coordinates, is not reached by the end stage, which goes by time -/
+example :
+    let r (ts lat d : Nat) := mkRec ts lat (lat + 1000) d
+    let lap (a b : Nat) : Message :=
+      { num := mnLap, devFields := [], fields := [
+          { base := some { num := fnLapStartTime, baseType := btUint32 }, value := .uint32 a },
+          { base := some { num := fnLapStartPositionLat, baseType := btSint32 }, value := .int32 7 },
+          { base := some { num := fnLapTotalTimerTime, baseType := btUint32 }, value := .uint32 ((b - a) * 1000) }] }
+    let ms := [r 100 1 0, r 50 2 100000, lap 40 60, lap 70 80]
+    distOKB ms = true ∧ recTimesIncB ms = false ∧ lapsSeqB lapPH ms = true ∧ unitsDisagree lapPH 50000 ms = false ∧
+      noLeakB lapPH 50000 60000 ms (conceal 50000 60000 ms) = false := by decide +kernel
 
 /-- KF-C20-2 (fixed by /repo commit bd79ab7): concealing the last 2000 m of the same 900 m activity conceals every
 record; lap 1 used to keep all its positions — with the fixed `updateEndPosition` the statement holds on the witness -/
@@ -246,14 +286,36 @@ theorem C20_combine_sort (fs : List (List Message)) :
     ∀ k, (sortByCreation fs).filter (fun x => timeCreated x == k) = fs.filter (fun x => timeCreated x == k) :=
   ⟨sortByCreation_perm fs, sortByCreation_sorted fs, fun k => sortByCreation_stable k fs⟩
 
-/-- the full statement about accumulated quantities: the body is exactly `expectedBody` — every accumulable value of a
-later file is its input value plus the last values of the same quantity in the earlier files (closed form,
-`FitModel/ActivitySpec.lean`). Evaluated on the implementation by the property predicate of family `activity` and tied
-to the model by the correspondence; not yet proved as a theorem about the model's accumulator (what is missing: the
-invariant "the entry of a key holds Σ of the last values of the earlier files" through `accMesgs`). -/
-def C20_combine_accumulate_full : Prop :=
-  ∀ (fits : List (List Message)) (body : List Message) (tr : List Trailer),
-    combine fits = .ok body tr → expectedBody fits = some body
+/-- **Combining continues the accumulated quantities across the file boundaries without loss.** Whenever `Combine`
+succeeds, the body of the result is exactly `expectedBody` (FitModel/ActivitySpec.lean): every message of every input
+in creation-time order, and the value of every valid accumulable field (distance, accumulated power, cycles, … — any
+(message number, field number), scalar or array, every integer type) of a later file is its input value plus the LAST
+value of the same quantity in each earlier file that has it, `out = in + Σ last values of the earlier files`
+(`continueAcc`: a left fold of `sumValue` over the earlier files, with Go's wrap-around of the field's width) — for any
+number of files, quantities that appear or disappear from file to file included (the class of KF-C20-3, fixed).
+Proved through the accumulator's invariant (FitProps/ActivityAccLemmas.lean: `Inv`, `WInv`): between two files the
+entry of a key holds the sum of the last values of the earlier files; inside a file `last` follows the most recent
+value met. Together with `C20_combine_order` / `C20_combine_sort` this is the combine clause of the property. -/
+theorem C20_combine_accumulate (fits : List (List Message)) (body : List Message) (tr : List Trailer)
+    (h : combine fits = .ok body tr) : expectedBody fits = some body :=
+  combine_accumulate fits body tr h
+
+/-- what `expectedBody` asks of one field, spelled out: for a valid accumulable field `f` of a message numbered `mn` the
+expected value is the fold `((v + l₀) + l₁) + …` over the earlier files' last values of the key (files without the key
+are skipped), and a field that is not accumulable (or invalid) stays as it is -/
+theorem C20_combine_closed_form (earlier : List (List Message)) (mn : Nat) (f : Field) :
+    continueAcc earlier mn f =
+      if accumulable f then
+        (earlier.foldl (fun acc file => match acc, lastIn mn (fieldNumOf f) file with
+            | some v, some l => sumValue v l
+            | some v, none => some v
+            | none, _ => none) (some f.value)).map fun v => { f with value := v }
+      else some f := by
+  unfold continueAcc
+  cases accumulable f
+  · simp
+  · simp only [Bool.not_true, Bool.false_eq_true, ↓reduceIte]
+    congr 2
 
 /-! ## aggregator (used by the combiner on sessions and split summaries) -/
 
@@ -280,5 +342,17 @@ example : recDists demo = [0, 100, 100, 250] := by decide
 example : (recDists demo).Pairwise (· ≤ ·) := by decide
 example : ((conceal 100 100 demo).map posFree) = [true, false, false, true] := by decide
 example : (reduceByDistance 150 demo).map dist = [0, 250] := by decide
+
+
+/-- two activities, the second created later, each with distances 0, 100 (and the first ending at 100): combined, the
+second one's records read 100, 200 -/
+def demoFile (t d0 d1 : Nat) : List Message :=
+  [{ num := mnFileId, devFields := [], fields := [{ base := some { num := fnFileIdTimeCreated, baseType := btUint32 }, value := .uint32 t }] },
+   mkRec t 1 2 d0, mkRec (t + 10) 3 4 d1,
+   { num := mnSession, devFields := [], fields := [{ base := some { num := fnSessionStartTime, baseType := btUint32 }, value := .uint32 t }] }]
+
+example : (match combine [demoFile 5000 0 100, demoFile 1000 0 100] with
+    | .ok body _ => (body.filter isRecord).map dist
+    | _ => []) = [0, 100, 100, 200] := by decide +kernel
 
 end Fit.C20
